@@ -121,13 +121,15 @@ class AutoUmap(Rule):
 class LowerTryCatch(Rule):
     """Structural lowering of the single try statement of a function whose handler catches one std class by const reference."""
 
-    def __init__(self, maythrow, ret):
-        self.maythrow, self.ret = maythrow, ret
+    def __init__(self, maythrow, ret, optional=False):
+        self.maythrow, self.ret, self.optional = maythrow, ret, optional
         self.pat = 'try/catch lowering'
 
     def apply(self, text, where=''):
         m = lex.mask(text)
         tries = [mo.start() for mo in re.finditer(r'\btry\b', m)]
+        if not tries and self.optional:
+            return text          # no handler in this version of the function: nothing to lower (an exception of a callee propagates)
         if len(tries) != 1:
             raise ExtractionBreak('%s: expected exactly one try statement, found %d' % (where, len(tries)))
         t = tries[0]
@@ -236,7 +238,7 @@ def set_units(ctx, src):
       + [Rule(r'items\.erase\(', 'items.erase_it(', count='+', regex=True)])
     F(r'void LRUSet<K>::clear\(\)', 'void LRUSet_clear(LRUSet* self)')
     F(r'bool LRUSet<K>::change_size\(const K& k, size_t new_size\)', 'bool LRUSet_change_size(LRUSet* self, K k, size_t new_size)',
-      ref_rules('i', 'Item') + method_rules(P) + [LowerTryCatch(['umap_at'], '0')])
+      ref_rules('i', 'Item', None) + method_rules(P) + [LowerTryCatch(['umap_at'], '0', optional=True)])
     F(r'bool LRUSet<K>::touch\(const K& k, ssize_t new_size\)', 'bool LRUSet_touch(LRUSet* self, K k, ssize_t new_size)',
       ref_rules('i', 'Item') + method_rules(P) + [LowerTryCatch(['umap_at'], '0')])
     F(r'void LRUSet<K>::unlink_item\(Item\* i\)', 'void LRUSet_unlink_item(LRUSet* self, Item* i)')
@@ -315,7 +317,7 @@ def map_units(ctx, src, with_insert_const):
       IT + ref_rules('item', 'Item') + [Rule(r'items\.erase\(', 'items.erase_it(', count='+', regex=True)])
     F(r'void clear\(\)', 'void LRUMap_clear(LRUMap* self)')
     F(r'bool change_size\(const KeyT& k, size_t new_size, bool touch = [^,)]+\)', 'bool LRUMap_change_size(LRUMap* self, KeyT k, size_t new_size, bool touch)',
-      ref_rules('i', 'Item') + method_rules(P) + [LowerTryCatch(['umap_at'], '0')])
+      ref_rules('i', 'Item', None) + method_rules(P) + [LowerTryCatch(['umap_at'], '0', optional=True)])
     F(r'bool touch\(const KeyT& k, ssize_t new_size = [^,)]+\)', 'bool LRUMap_touch(LRUMap* self, KeyT k, ssize_t new_size)',
       ref_rules('i', 'Item') + method_rules(P) + [LowerTryCatch(['umap_at'], '0')])
     F(r'size_t size\(\) const', 'size_t LRUMap_size(const LRUMap* self)')
